@@ -137,11 +137,22 @@ def run(ctx: Ctx) -> None:
         builder_handles = None
     if builder_handles is not None:
         builder_handles.run(ctx)
+    # ---- part (b), exhaustive leg: every finished program of HugrBuilder.tla (dataflow, conditional, tail loop) replayed on the
+    # real builders; every handle (leaf op, load, nested Dfg, Conditional, TailLoop) must report HugrBuilder!HandleCounts
+    from . import builder_model
+    wd = workdir("c16b")
+    try:
+        builder_model.run(ctx, wd, handles_only=True)
+    finally:
+        cleanup(wd)
 
 
 def replay(path: str) -> int:
     body = json.load(open(path))
     c = body["case"]
+    from . import builder_model
+    if builder_model.replay_case(body):
+        return 0
     if "mode" in c and c["mode"] in ("index", "slice"):
         for how, node in handles(c["n"]):
             print(how, observe(node, c["mode"], c["a"], c["b"], c["s"]), "expected", body["expected"])
